@@ -249,10 +249,13 @@ def real_bank_oracle(ctx):
             continue
         L, S = comp.frame_length, comp.frame_shift
         N = r.choice([0, 1, S // 2, L // 2, L // 2 + 1, L, 2 * L + 3, r.randrange(0, 4 * L + 2), 5 * L + 7])
-        x = np.random.RandomState(r.randrange(1 << 30)).randn(N)
+        # "any float signal": double and single precision (the computers work in double precision internally and
+        # return the input's dtype, so streaming and whole-signal results still agree to the result's precision)
+        fdt = r.choice([np.float64, np.float64, np.float32])
+        x = np.random.RandomState(r.randrange(1 << 30)).randn(N).astype(fdt)
         x.setflags(write=False)
         chunks = random_chunking(r, N)
-        case.update(N=N, chunks=chunks, L=L, S=S)
+        case.update(N=N, chunks=chunks, L=L, S=S, dtype=np.dtype(fdt).name)
         ctx.case(case, kind="real:" + which + ":" + kind)
         try:
             full = comp.compute_full(x)
@@ -273,7 +276,8 @@ def real_bank_oracle(ctx):
                           tags=dict(computer=which, clause="raises", exc=type(e).__name__))
             continue
         for name, got in (("stream", st), ("fbf", fbf)):
-            if got.shape != full.shape or not np.allclose(got, full, rtol=1e-8, atol=1e-9):
+            tol = 1e-8 if fdt is np.float64 else 2e-5
+            if got.shape != full.shape or got.dtype != full.dtype or not np.allclose(got, full, rtol=tol, atol=tol / 10):
                 ctx.violation(case, dict(shape=list(full.shape)),
                               dict(shape=list(got.shape), maxdiff=float(np.max(np.abs(got - full))) if got.shape == full.shape and got.size else None),
                               "%s == compute_full (library bank, up to round-off)" % name,
